@@ -246,3 +246,12 @@ def classify(case):
         return "prefix+junk"
     n = len(case[1])
     return "len<=5" if n <= 5 else "len<=20" if n <= 20 else "len>20"
+
+
+def extra_checks(ctx, cases_, impl_lines, model_lines_):
+    """"encoding any record never panics" quantifies over records too: a record whose message, while it is being
+    formatted, has another record encoded on the same thread (logging from a Display impl), a record whose message
+    fails half-way, a record encoded after earlier ones failed on the thread - C09's record families (modes 6 and 9)"""
+    from gen import xcheck
+    return xcheck.borrow(ctx, "C09", "encoding never panics, whatever the record's message does while it is formatted",
+                         lambda c: c[0] in (6, 9), n=300)
